@@ -319,7 +319,9 @@ def run_case(case: Dict) -> CaseResult:
             M.issued.add(cid)
             if cid in svc.connections:
                 M.open.add(cid)
-            ent = {"obj": h, "cid": cid, "active": True}
+            # owner = the client *instance* that holds the handle in its client_connections; a handle orphaned by a
+            # forced uninstall is unknown to a reinstalled client (its disconnect() is a client-side no-op)
+            ent = {"obj": h, "cid": cid, "active": True, "owner": client(i)}
             M.handles[i].append(ent)
             if flags["pw_stage"] == 2 and pw_ok and not refuse:
                 flags["pw_restart"] = True
@@ -522,7 +524,7 @@ def run_case(case: Dict) -> CaseResult:
                 return
             ent = pool[-1] if idx == 99 else pool[idx % len(pool)]  # 99 = the handle issued most recently
             delivered = reach(i)
-            was = ent["active"] and usable(i)
+            was = ent["active"] and usable(i) and ent["owner"] is client(i)
             cut(ent["obj"].disconnect)
             if was:
                 ent["active"] = False
@@ -540,13 +542,14 @@ def run_case(case: Dict) -> CaseResult:
                 return
             delivered = reach(i)
             could_act = usable(i)
+            leaving = client(i)
             status = request(am.form_request("node-application-remove", {"node_name": f"c{i}", "application_name": "database-client"}))
             if client(i) is not None:
                 res.label(f"skipped:uninstall-{status}")  # e.g. refused on a powered-off host
                 sync_sets(when, "uninstall")
                 return
             for ent in M.handles[i]:
-                if ent["active"]:
+                if ent["active"] and ent["owner"] is leaving:
                     if could_act:
                         ent["active"] = False
                         if delivered:
